@@ -133,7 +133,11 @@ pub fn prayer_times_dt_rng_block(
     min_days_for_pll: usize,
 ) -> BTreeMap<NaiveDate, BTreeMap<Prayer, Result<PrayerTime, ()>>> {
     #[cfg(ipt_verif)]
-    use ipt_verif_rt::{channel, thread};
+    #[allow(unused_imports)]
+    use ipt_verif_rt::{
+        atomic, channel, mpsc, sync_channel, thread, Arc, AtomicBool, AtomicI32, AtomicI64,
+        AtomicIsize, AtomicU32, AtomicU64, AtomicUsize, Barrier, Condvar, Mutex, RwLock,
+    };
     // Determine parallelism.
     let avail_pll = if let Ok(count) = thread::available_parallelism() {
         count.get()
